@@ -116,5 +116,27 @@ def build_fault_corpus(tier):
         if "single" in how:
             c["lens"] = [50, 44]
         extra.append(c)
+    # invalid arguments (beyond the three failure kinds C20 lists): whatever the library raises, it must raise
+    # promptly, leave no worker and leave the caller's arrays alone
+    for i, inv in enumerate(["W_gt_T", "K_gt_windows", "nan_data", "limit0", "K1", "beta_wrong_length",
+                             "mismatched_columns"]):
+        c = runs.gen_config(rng, 3500 + i, tier)
+        c.update(eps=0, scale=1.0, invalid=inv, fe="joint" if inv == "mismatched_columns" else c["fe"])
+        if c["fe"] == "joint" and len(c["lens"]) < 2:
+            c["lens"] = [c["lens"][0], c["lens"][0] + 3]
+        if c["fe"] == "single":
+            c["lens"] = c["lens"][:1]
+        if inv == "W_gt_T":
+            c["lens"] = [max(1, c["W"] - 1)] * len(c["lens"])
+        elif inv == "K_gt_windows":
+            c["lens"] = [c["W"] + 1] * len(c["lens"])
+            c["K"] = 2 * len(c["lens"]) + 3
+        elif inv == "limit0":
+            c["limit"] = 0
+        elif inv == "K1":
+            c["K"] = 1
+        elif inv in ("beta_wrong_length", "lambda_wrong_shape"):
+            c["beta_form"], c["lam_form"] = "float", "float"
+        extra.append(c)
     extra_tr = runs.run_many(extra)
     return {"experiments": exps, "extra": extra_tr}
